@@ -12,6 +12,7 @@ import (
 	"encoding/hex"
 	"flag"
 	"fmt"
+	"strings"
 	"time"
 
 	"github.com/tetratelabs/wazero"
@@ -223,6 +224,8 @@ func main() {
 	only := flag.Int("only", -1, "")
 	boundMs := flag.Int("bound", 4000, "")
 	list := flag.Bool("list", false, "behave: print the case list only")
+	delayMs := flag.Int("delay", 15, "behave: milliseconds between the start of the call and the cause")
+	skip := flag.String("skip", "", "behave: comma-separated shapes to leave out (already known to hang)")
 	quick := flag.Bool("quick", false, "behave: shapes known to hit the watchdog run one combination only")
 	flag.Parse()
 	out := c.NewOut()
@@ -239,6 +242,11 @@ func main() {
 			}
 			return
 		}
-		runBehaviour(*engine, *quick, *from, *only, time.Duration(*boundMs)*time.Millisecond, out)
+		causeDelay = time.Duration(*delayMs) * time.Millisecond
+		sk := map[string]bool{}
+		for _, n := range strings.Split(*skip, ",") {
+			sk[n] = true
+		}
+		runBehaviour(*engine, *quick, *from, *only, time.Duration(*boundMs)*time.Millisecond, sk, out)
 	}
 }
